@@ -48,6 +48,7 @@ def run(F, R):
     transport_registration_rule(F, R, 'L7')
 
 
+@shared_rule
 def registration_rule(F, R, rule):
     """L3's queue_set obligations (index, size = SIZE, the three area addresses) under another property's rule id: the
     device locates ring slots with the size it was told."""
